@@ -1,6 +1,6 @@
 #!/bin/bash
 # evidence and replays of runs against a changed tree go to a scratch directory, never to /verif/evidence
-export VERIF_DIR=/tmp/verif_scratch_out; mkdir -p $VERIF_DIR; cp /verif/known_findings.json $VERIF_DIR/
+export VERIF_DIR=/tmp/verif_scratch_out; mkdir -p $VERIF_DIR; cp /verif/known_findings.json $VERIF_DIR/; ln -sfn /verif/sim $VERIF_DIR/sim
 # usage: tools/try_seeded.sh <patch.diff> <ID> [ID...] : apply to /repo, run the quick checks, always undo
 PATCH=$1; shift
 cd /repo && git diff --quiet || { echo "/repo is dirty"; exit 2; }
